@@ -40,6 +40,8 @@ REQUIRED_THEOREMS = [
     "TapkeeVerif.C19.spe_pair_step_contracts",
     "TapkeeVerif.C19.spe_fixed_point",
     "TapkeeVerif.C19.spe_iteration_preserves_centroid",
+    "TapkeeVerif.C19.spe_run_total",
+    "TapkeeVerif.C19.spe_alpha_zero_distances",
     "TapkeeVerif.C19.uniform_random_in_unit_interval",
     "TapkeeVerif.C19.gaussian_random_finite",
     "TapkeeVerif.C19.gaussian_random_terminates",
@@ -75,19 +77,38 @@ def spe_variant(repo):
     raise ValueError("spe.hpp: unrecognised partner store `%s[%s] = ind1Neighbors[r]`" % (target, index))
 
 
+def spe_alpha_guard(repo):
+    """is the global strategy's `alpha` guarded against a vanishing maximum distance?"""
+    src = open(os.path.join(repo, "include", "tapkee", "routines", "spe.hpp")).read()
+    code = re.sub(r"/\*.*?\*/", " ", src, flags=re.S)
+    code = re.sub(r"//[^\n]*", " ", code)
+    m = re.findall(r"\balpha\s*=\s*([^;]+);", code)
+    exprs = [re.sub(r"\s+", "", e) for e in m if re.sub(r"\s+", "", e) not in ("0.0", "0")]
+    if exprs == ["1.0/max*std::sqrt(2.0)"]:
+        return False
+    if exprs in (["max>0.0?1.0/max*std::sqrt(2.0):0.0"], ["max>0?1.0/max*std::sqrt(2.0):0.0"]):
+        return True
+    raise ValueError("spe.hpp: unrecognised assignment(s) to alpha: %r" % (exprs,))
+
+
 def translate(ctx):
     inplace = spe_variant(vlib.REPO)
+    guard = spe_alpha_guard(vlib.REPO)
     text = ("/-! GENERATED by checks/c19.py (translate) from include/tapkee/routines/spe.hpp — do not edit.\n"
             "    Where the local strategy of `spe_embedding` stores the partner it picked:\n"
             "    `true`  : `indices[nupdates + j] = ind1Neighbors[r]` (in place, the pinned commit);\n"
             "    `false` : a separate vector `v[j] = ind1Neighbors[r]`, `ind2 = v.begin()`. -/\n"
             "namespace TapkeeVerif.Gen\n\n"
             "def spePartnersInPlace : Bool := %s\n\n"
-            "end TapkeeVerif.Gen\n" % ("true" if inplace else "false"))
+            "/-- global strategy: `alpha = max > 0.0 ? 1.0 / max * sqrt(2.0) : 0.0` (`true`) or the unguarded\n"
+            "    `alpha = 1.0 / max * sqrt(2.0)` (`false`, divides by zero when all input distances vanish) -/\n"
+            "def speAlphaZeroGuard : Bool := %s\n\n"
+            "end TapkeeVerif.Gen\n" % ("true" if inplace else "false", "true" if guard else "false"))
     changed = vlib.write_if_changed(GEN_FILE, text)
     ctx.log("Gen/SpeVariant.lean %s (partners %s)" % ("regenerated" if changed else "unchanged",
                                                     "in place" if inplace else "in a separate vector"))
     ctx.extra["spe_partner_store"] = "in-place overwrite of indices" if inplace else "separate vector"
+    ctx.extra["spe_alpha_zero_guard"] = guard
 
 
 # ----------------------------------------------------------------------------- numbers
@@ -319,6 +340,9 @@ def gen_approx_case(r, quick):
         for j in range(i + 1, N):
             dd = Fraction(max(1, round(fdist(pts[i], pts[j]) * 16)), 16)
             dm[i][j] = dm[j][i] = dd
+    if g and r.chance(1, 16):
+        # all samples coincide: every input distance is 0 (trivially realisable; the maximum distance vanishes)
+        dm = [[Fraction(0)] * N for _ in range(N)]
     y0 = [[Fraction(r.below(65), 64) for _ in range(d)] for _ in range(N)]
     nupc = min(nup, N // 2)
     unif = [] if g else [Fraction(r.below(64), 64) for _ in range(T * nupc)]
@@ -420,7 +444,10 @@ def judge_spe(ctx, bins, lines, label):
         ctx.stat("spe-pairs", len(pairs))
         # 1. property oracle on the implementation's observations
         bad = None
-        if o.get("fin") != "1":
+        if o.get("fin") != "1" and f["g"] == "1" and all(t in ("0", "0/1") for t in f["dm"].split(",")):
+            bad = ("spe-global:zero-distances", "global strategy on coinciding samples (all input distances 0): alpha = 1/max*sqrt(2) "
+                   "divides by zero and every coordinate of the embedding is NaN")
+        elif o.get("fin") != "1":
             bad = ("spe:nonfinite", "spe_embedding returned non-finite coordinates")
         elif int(o.get("oobidx", "0")) > 0:
             bad = ("spe:index-out-of-range", "the distance callback was called with an index outside 0..N-1")
@@ -430,7 +457,7 @@ def judge_spe(ctx, bins, lines, label):
             bad = spe_oracle(f, pairs, nupc, perms)
         if bad:
             ctx.stat("impl-oracle-reject")
-            ctx.fail(bad[0], "SPE index bookkeeping: " + bad[1], case=line, detail={"impl": o_short(o), "model": mo[:600]})
+            ctx.fail(bad[0], "SPE: " + bad[1], case=line, detail={"impl": o_short(o), "model": mo[:600]})
             results[n] = bad[0]
             continue
         # 2. model vs implementation
